@@ -261,10 +261,20 @@ def main():
         ops += [('permute', tuple(x - n if rng.random() < 0.3 else x for x in p)) for p in perms]
         ops += [(name, d) for name in ('squeeze', 'unsqueeze', 'unbind') for d in range(-n, n)] + [('unsqueeze', n), ('unsqueeze', -n - 1)]
         ops += [('split', k, d) for k in (1, 2) for d in range(-n, n)] + [('chunk', 2, d) for d in range(-n, n)]
+        # the view family re-cuts the stack (`_lazy.py:flatten/unflatten/reshape/expand`): every (start, end) pair, every dim with the
+        # factorisations of its size, whole-shape reshapes, expansions that prepend / keep / widen size-1 dims
+        ops += [('flatten', a - n if (a + b) % 3 == 0 else a, b - n if (a * b) % 2 == 1 else b) for a in range(n) for b in range(a, n)]
+        for d in range(n):
+            sz = shape[d]
+            facs = [(1, sz), (sz, 1), (-1, 1), (sz,)] + [(q, sz // q) for q in (2, 3) if sz % q == 0 and sz > q]
+            ops += [('unflatten', d - n if d % 2 else d, f) for f in facs]
+        ops += [('reshape', (-1,)), ('reshape', tuple(reversed(shape))), ('reshape', tuple(shape)), ('reshape', (shape[0], -1)), ('reshape', (-1, shape[-1]))]
+        ops += [('expand', tuple(shape)), ('expand', (2,) + tuple(shape)), ('expand', tuple(-1 for _ in shape)), ('expand', tuple(3 if x == 1 else x for x in shape))]
+        ops += [('splitlist', (1, shape[d] - 1), d) for d in range(n) if shape[d] >= 2]
         for sd in range(n):
             for op in ops:
                 run.case(('lazy-grid', shape, sd, str(op)))
-                L.run_container(run, spec, op, 'lazy', rng, False, stack_dim=sd)
+                L.run_container(run, spec, op, 'lazy', rng, False, stack_dim=sd, valid_call=True)
 
     # ---- 3b. repeat / repeat_interleave(dim given): model vs implementation vs torch spec
     rep_cases, rep_lines = [], []
